@@ -246,6 +246,12 @@ def o_disease_durations(a, c16):
         tps = [v for v in dist.pars.values() if isinstance(v, ss.TimePar)]
         if not tps or not isinstance(tps[0], ss.dur): continue
         own = tps[0].unit
+        try:     # the DECLARED unit (regenerated from the module's source), not the one read back from the object
+            from harness.props import c16_round3 as r3
+            decl = [d for d in r3.builtin_decls() if d['cls'] == a['disease'] and d['par'] == key and d['kind'] == 'dur']
+            if decl and decl[0]['unit'] is not None: own = decl[0]['unit']
+        except Exception:
+            pass
         simB, dB = build_disease(a['disease'], su, sdt, dur, dict(unit=own, dt=1.0), seed=a.get('seed', 1), network=a.get('network', 'random'))
         uids = simA.people.auids[:12]
         xa = np.asarray(dA.pars[key].rvs(uids), dtype=float); xb = np.asarray(dB.pars[key].rvs(uids), dtype=float)
